@@ -757,7 +757,7 @@ class Container:
             amount_to_add = Unit.convert(source, quantity, 'U')
         else:
             amount_to_add = Unit.convert(source, quantity, config.moles_storage_unit)
-        if self.volume + volume_to_add > self.max_volume:
+        if round(self.volume + volume_to_add, config.internal_precision) > self.max_volume:
             raise ValueError("Exceeded maximum volume")
         self.volume = round(self.volume + volume_to_add, config.internal_precision)
         self.contents[source] = round(self.contents.get(source, 0) + amount_to_add, config.internal_precision)
